@@ -197,19 +197,10 @@ func verifArbCRes() ClientPollResponse {
 
 func verifJSONUnmarshal(data []byte, v interface{}) error {
 	if verifLoopback {
-		switch t := v.(type) {
-		case *ProxyPollRequest:
-			*t = verifMarshaled.(ProxyPollRequest)
-		case *ProxyPollResponse:
-			*t = verifMarshaled.(ProxyPollResponse)
-		case *ProxyAnswerRequest:
-			*t = verifMarshaled.(ProxyAnswerRequest)
-		case *ProxyAnswerResponse:
-			*t = verifMarshaled.(ProxyAnswerResponse)
-		case *ClientPollRequest:
-			*t = verifMarshaled.(ClientPollRequest)
-		case *ClientPollResponse:
-			*t = verifMarshaled.(ClientPollResponse)
+		// Unmarshal(Marshal(x)) through the struct-tag model of encoding/json (engine/jsonmodel.go):
+		// member names, omitempty, pointers and kinds decide what arrives, not Go type identity
+		if !verifapi.JSONTransfer(verifMarshaled, v, nil) {
+			return verifErrJSON
 		}
 		return nil
 	}
@@ -488,8 +479,7 @@ func VerifC12_RoundTripProxyPoll() {
 	verifapi.Assume(verifNATValid(nat))
 	data, err := EncodeProxyPollRequestWithRelayPrefix(sid, ptype, nat, clients, pat)
 	verifapi.Assert(err == nil, "proxy poll request encodes")
-	if !verifapi.Native() {
-		m := verifMarshaled.(ProxyPollRequest)
+	if m, isMsg := verifMarshaled.(ProxyPollRequest); !verifapi.Native() && isMsg {
 		verifapi.Assert(m.Sid == sid && m.Type == ptype && m.NAT == nat && m.Clients == clients, "proxy poll request: every field is the corresponding argument")
 		verifapi.Assert(verifMajorIs1(m.Version), "proxy poll request: major version 1")
 		verifapi.Assert(m.AcceptedRelayPattern != nil, "proxy poll request: relay pattern present")
@@ -522,8 +512,7 @@ func VerifC12_RoundTripPollResponse() {
 	if verifapi.Bool("success") {
 		data, err := EncodePollResponseWithRelayURL(offer, true, nat, relay, "")
 		verifapi.Assert(err == nil, "poll response encodes")
-		if !verifapi.Native() {
-			m := verifMarshaled.(ProxyPollResponse)
+		if m, isMsg := verifMarshaled.(ProxyPollResponse); !verifapi.Native() && isMsg {
 			verifapi.Assert(m.Status == "client match" && m.Offer == offer && m.NAT == nat && m.RelayURL == relay, "poll response: every field is the corresponding argument")
 		}
 		o2, n2, r2, err := DecodePollResponseWithRelayURL(data)
@@ -537,8 +526,7 @@ func VerifC12_RoundTripPollResponse() {
 	} else {
 		data, err := EncodePollResponse(offer, false, nat)
 		verifapi.Assert(err == nil, "poll response (no match) encodes")
-		if !verifapi.Native() {
-			m := verifMarshaled.(ProxyPollResponse)
+		if m, isMsg := verifMarshaled.(ProxyPollResponse); !verifapi.Native() && isMsg {
 			verifapi.Assert(m.Status == "no match" && m.Offer == "", "poll response: no match carries no offer")
 		}
 		o2, _, _, err := DecodePollResponseWithRelayURL(data)
@@ -552,8 +540,7 @@ func VerifC12_RoundTripAnswer() {
 	answer, sid := "a"+verifASCII("answer", 2), "s"+verifASCII("sid", 2)
 	data, err := EncodeAnswerRequest(answer, sid)
 	verifapi.Assert(err == nil, "answer request encodes")
-	if !verifapi.Native() {
-		m := verifMarshaled.(ProxyAnswerRequest)
+	if m, isMsg := verifMarshaled.(ProxyAnswerRequest); !verifapi.Native() && isMsg {
 		verifapi.Assert(m.Answer == answer && m.Sid == sid && verifMajorIs1(m.Version), "answer request: every field is the corresponding argument")
 	}
 	a2, s2, err := DecodeAnswerRequest(data)
@@ -581,8 +568,9 @@ func VerifC12_RoundTripClient() {
 	verifapi.Assert(len(data) >= 4 && string(data[:4]) == "1.0\n", "client poll request starts with the version line")
 	if !verifapi.Native() {
 		verifapi.Assert(string(data[4:]) == string(verifBody), "client poll request: version line followed by the JSON body")
-		m := verifMarshaled.(ClientPollRequest)
-		verifapi.Assert(m.Offer == offer && m.NAT == nat, "client poll request: every field is the corresponding argument")
+		if m, isMsg := verifMarshaled.(ClientPollRequest); isMsg {
+			verifapi.Assert(m.Offer == offer && m.NAT == nat, "client poll request: every field is the corresponding argument")
+		}
 	}
 	r2, err := DecodeClientPollRequest(data)
 	verifapi.Cover("round trip: client poll request")
